@@ -4,7 +4,9 @@
 (* queue non-empty, dequeues before A gets the lock again (the harness      *)
 (* holds A at its gate until B is parked); all other orders are free.       *)
 EXTENDS Emitter
+CONSTANT Stall     \* the reader stalls until more than Stall events have been emitted (0: no stall)
 SPlace == Place /\ ~(pcB = "wait" /\ q # <<>>)
-SimNext == Emit \/ SPlace \/ Dequeue \/ Send \/ Relock \/ Read
+SRead == Read /\ nxt > Stall
+SimNext == Emit \/ SPlace \/ Dequeue \/ Send \/ Relock \/ SRead
 SimSpec == Init /\ [][SimNext]_vars
 =============================================================================
